@@ -479,6 +479,11 @@ func judgeC17(c *Ctx, sc *Scenario) *Violation {
 		for i, gmp := range []int{2, 3, 4, 5, 8, 16, 2, 3, 4, 5, 2, 4} {
 			b := *sc
 			jitter(&b, i)
+			if i == 3 || i == 8 {
+				// a slow gitconfig lookup (correct answers, 400 ms late) must not change the report
+				b.Plan.Oneshot = []OneshotFault{{Match: "config --get", Nth: -1, AtByte: -1, DelayMS: 400}}
+				c.Stats.Probe("engine-B-repetitions-with-slow-config")
+			}
 			res := RunB(&b, site, BOpts{GOMAXPROCS: gmp})
 			c.Stats.CLIRuns++
 			c.Stats.Probe("engine-B-plain-repetitions")
@@ -582,9 +587,24 @@ func checkC17(c *Ctx, rt *rapid.T) {
 	if forceTable {
 		fixed = []string{"-v"}
 	}
-	fixed = append(fixed, NamesArgs(g, "")...)
-	if g.Chance(1, 2, "verbose") {
-		fixed = append(fixed, "-v")
+	sizerCfg := g.Chance(1, 3, "sizerconfig")
+	if sizerCfg {
+		// output-shaping settings come from gitconfig only
+		w.Config.Global += "[sizer]\n\tnames = hash\n\tthreshold = 0\n\tjsonVersion = 2\n"
+	}
+	if !sizerCfg {
+		fixed = append(fixed, NamesArgs(g, "")...)
+		if g.Chance(1, 2, "verbose") {
+			fixed = append(fixed, "-v")
+		}
+	} else {
+		var keep []string
+		for _, a := range fixed {
+			if !strings.HasPrefix(a, "--json-version") && a != "1" && a != "2" && a != "-v" {
+				keep = append(keep, a)
+			}
+		}
+		fixed = keep
 	}
 	fixed = append(fixed, g.PickStr([]string{"--progress", "--no-progress"}, "progress"))
 	inv := BuildInvocation(g, fixed, refopts, roots, []string{"top", "subdir", "elsewhere"}, w)
